@@ -6,7 +6,7 @@ ID = "C18"
 TOL = (1e-6, 1e-9)
 BOUNDS = {
     "quick": "every element kind (Point, Matrix, Color, Length, Move/Line/Close/Quad/Cubic/Arc, Path, Rect, Circle, Ellipse, SimpleLine, Polyline, Polygon, Group with nested "
-             "group and shapes, Text, Image) x every derivation applicable to it (copy, *M, abs, Path(x), Path(subpath), group copy, ~, +) x every single public mutation "
+             "group and shapes, Text, Image) x every derivation applicable to it (copy, *M, abs, Path(x), Path(subpath), group copy, ~, +, segment + segment, segment + string) x every single public mutation "
              "of either side, plus all ordered pairs of mutations for Path, Polyline, Rect and Group; mutations inject fresh symbolic values",
     "thorough": "all ordered pairs for every kind and all triples for Path and Group",
 }
